@@ -253,9 +253,14 @@ def who(chk, prog, names, cg, fa):
     writers(names.MEMORY, "map", {"remap"}, "ZXMemory.map")
     writers(names.MEMORY, "rom", {"rom_page_data_mut", "force_write"}, "ZXMemory.rom")
     writers(names.MEMORY, "ram", {"write", "force_write", "ram_page_data_mut"}, "ZXMemory.ram")
-    writers(names.CTL, "paging_enabled", {"write_7ffd"}, "ZXController.paging_enabled")
+    # load_7ffd (snapshot loaders) re-enables paging before applying the stored latch: a snapshot describes the lock too
+    writers(names.CTL, "paging_enabled", {"write_7ffd", "load_7ffd"}, "ZXController.paging_enabled")
     callers(prog.fn_path("rustzx_core", "ZXMemory::remap"), {"write_7ffd"}, "ZXMemory::remap")
-    callers(names.ctl("write_7ffd"), {"write_io", "load", "process_spcr_block"}, "ZXController::write_7ffd")
+    callers(names.ctl("write_7ffd"), {"write_io", "load", "process_spcr_block", "load_7ffd"}, "ZXController::write_7ffd")
+    try:
+        callers(names.ctl("load_7ffd"), {"load", "process_spcr_block"}, "ZXController::load_7ffd")
+    except KeyError:
+        pass
     callers(prog.fn_path("rustzx_core", "ZXMemory::rom_page_data_mut"), {"load_default_rom", "load_rom_binary_16k_pages"}, "ZXMemory::rom_page_data_mut")
     callers(prog.fn_path("rustzx_core", "ZXMemory::force_write"), {"execute_poke"}, "ZXMemory::force_write")
     for m, n in (("Sinclair48K", 1), ("Sinclair128K", 2)):
